@@ -28,7 +28,7 @@ class KeyPool:
         spec = [("oct32", "oct", 32), ("rsa2048", "rsa", 2048), ("p256", "ec", "P-256"), ("ed25519", "okp", "ED25519"), ("ed448", "okp", "ED448")]
         if tier == "thorough":
             spec += [("oct64", "oct", 64), ("rsapss2048", "rsapss", 2048), ("p384", "ec", "P-384"), ("p521", "ec", "P-521"),
-                     ("k256", "ec", "secp256k1")]
+                     ("k256", "ec", "secp256k1"), ("oct65", "oct", 65), ("oct129", "oct", 129), ("oct200", "oct", 200)]
         if want:
             spec = [s for s in spec if s[0] in want] + [w for w in want if isinstance(w, tuple)]
         self.keys = {name: K.gen_key(kind, param, ctx.scratch) for name, kind, param in spec}
@@ -37,7 +37,8 @@ class KeyPool:
         self.rare = {}
         if tier != "thorough" and not want:
             self.rare = {name: K.gen_key(kind, param, ctx.scratch) for name, kind, param in
-                         [("rsapss2048", "rsapss", 2048), ("p384", "ec", "P-384"), ("p521", "ec", "P-521"), ("k256", "ec", "secp256k1"), ("oct64", "oct", 64)]}
+                         [("rsapss2048", "rsapss", 2048), ("p384", "ec", "P-384"), ("p521", "ec", "P-521"), ("k256", "ec", "secp256k1"), ("oct64", "oct", 64),
+                          ("oct65", "oct", 65), ("oct129", "oct", 129), ("oct200", "oct", 200)]}
         # RSA keys of sizes around the points where the signature gains an octet and its base64url text gains a character
         # or a quad (bits mod 8, octets mod 3), and the big ones; from harness/keycache (slow to make)
         self.sized = {}
@@ -343,6 +344,12 @@ def verify_sig(world, pool, tier, rng, provider="openssl"):
                     ("sig-ext-end", msg + b"." + sig + b"A", False), ("sig-ext-end", msg + b"." + sig + b"AAAA", False),
                     ("sig-ext-end", msg + b"." + sig + b"Zm9v" * 1000, False), ("sig-ext-start", msg + b"." + b"AAAA" + sig, False),
                     ("sig-trunc-start", msg + b"." + sig[4:], False)]
+            if rkey.kind == "oct":
+                # a MAC made with only the leading part of a long key (one hash block, half of it) is a MAC under another key
+                for cut in (32, 64, 128, len(rkey.k) - 1):
+                    if cut < len(rkey.k):
+                        muts.append(("mac-under-key-prefix-%d" % cut, msg + b"." + hs_sig(K.ALG_ORD[alg], rkey.k[:cut], msg), False))
+                muts.append(("mac-under-key-zero-extended", msg + b"." + hs_sig(K.ALG_ORD[alg], rkey.k + b"\x00", msg), False if len(rkey.k) >= 128 else None))
             for _ in range(6):
                 b_ = rng.randrange(len(raw) * 8)
                 r2 = bytearray(raw)
@@ -383,6 +390,13 @@ def verify_sig(world, pool, tier, rng, provider="openssl"):
                 emit(msg + b"." + sig[n:], "sig-trunc-start", False)
                 emit(msg + b"." + sig + b"A" * n, "sig-ext-end", False)
                 emit(msg + b"." + b"A" * n + sig, "sig-ext-start", False)
+            if key.kind == "oct":
+                # a MAC made with only the leading part of a long key (one hash block, half of it) is a MAC under another key
+                for cut in (16, 32, 48, 64, 128, len(key.k) - 1):
+                    if cut < len(key.k):
+                        emit(msg + b"." + hs_sig(K.ALG_ORD[alg], key.k[:cut], msg), "mac-under-key-prefix-%d" % cut, False)
+                if len(key.k) >= 128:
+                    emit(msg + b"." + hs_sig(K.ALG_ORD[alg], key.k + b"\x00", msg), "mac-under-key-zero-extended", False)
             # decoded signature: single-bit flips
             raw = K.b64u_dec(sig)
             bits = range(len(raw) * 8) if (thorough or len(raw) <= 66) else sorted(rng.sample(range(len(raw) * 8), 160))
@@ -752,6 +766,15 @@ def token_bytes(world, pool, tier, rng):
             for pl in (seg(b'{"' + cl.encode() + b'":' + v + b"}"), seg(b'{"iss":"a","sub":"a","aud":"a","' + cl.encode() + b'":' + v + b"}")):
                 toks.append(valid_h[0] + b"." + pl + b".")
                 toks.append(valid_h[1] + b"." + pl + b".AAAA")
+    # algorithm names are matched exactly: another letter case, a blank, a prefix or an extension of a name is no name --
+    # unsigned, with a stray signature, and with a MAC that would be right if the name were read leniently
+    for nm in ALG_NAMES:
+        for var in {nm.upper(), nm.lower(), nm.title(), nm.swapcase(), nm + " ", " " + nm, nm[:-1], nm + "0", nm + "\t"} - {nm}:
+            h_ = seg({"alg": var})
+            toks.append(h_ + b".e30.")
+            toks.append(h_ + b".e30.AAAA")
+            if nm in HS_MIN and "oct32" in pool.keys:
+                toks.append(h_ + b".e30." + hs_sig(K.ALG_ORD[nm], pool.keys["oct32"].k, h_ + b".e30"))
     sigs = [b"", b"AAAA", b"A", b".", b"..", b"=", b"\xff", b"AAAA.BBBB"]
     for h in valid_h:
         for p in valid_p:
@@ -829,6 +852,29 @@ def strength(world, pool, tier, rng, extra_keys):
             ok = n >= HS_MIN[alg]
             metas.append((len(world.ops), {"kind": "verify", "key": "oct%d" % n, "alg": alg, "may_accept": ok, "must_accept": ok}))
             world.op("ck 0 verify " + hx(tok), tag="verify")
+    # keys one octet (or a few bits) under the floor whose `k` is spelled with the unused low bits of its last character
+    # set: the text denotes the same 31 / 47 octets, the key is as weak as ever
+    B64 = b"ABCDEFGHIJKLMNOPQRSTUVWXYZabcdefghijklmnopqrstuvwxyz0123456789-_"
+    for n in (16, 31, 32, 46, 47, 49, 62, 64, 65):
+        if n % 3 == 0:
+            continue
+        key = K.Key("oct", k=bytes(rng.randrange(256) for _ in range(n)), bits=8 * n)
+        txt = K.b64u(key.k)
+        spare = 4 if n % 3 == 1 else 2
+        for add in sorted({1, (1 << spare) - 1}):
+            last = B64.index(txt[-1].encode())
+            alt = txt[:-1] + chr(B64[(last & ~((1 << spare) - 1)) | add])
+            it = world.add_key(fresh_set(), key, private=True, alg_attr=None, jwk_override={"k": alt})
+            for alg in ("HS256", "HS384", "HS512"):
+                world.op("ck 0 new", tag="cfg")
+                world.op("ck 0 setkey %d %d %d" % ((K.ALG_ORD[alg],) + it), tag="cfg")
+                msg = seg({"alg": alg}) + b"." + seg({"n": n})
+                ok = n >= HS_MIN[alg]
+                for kk_ in (key.k, key.k + bytes([(add << (8 - spare)) & 0xff])):       # ... also under the key the lenient reading would give
+                    tok = msg + b"." + hs_sig(K.ALG_ORD[alg], kk_, msg)
+                    good = ok and kk_ is key.k
+                    metas.append((len(world.ops), {"kind": "verify", "key": "oct%d, k ending in spare bits %d" % (n, add), "alg": alg, "may_accept": good, "must_accept": good}))
+                    world.op("ck 0 verify " + hx(tok), tag="verify")
     # public-key: every key against every PK algorithm, token signed by the oracle where the family matches
     allk = dict(pool.keys)
     for n_, k_ in extra_keys.items():
@@ -2528,6 +2574,24 @@ def keyring_suite(world, pool, tier, rng):
             world.op("jwks %d free %d" % (S0, idx), tag="kr")
             lst = lst[:idx] + lst[idx + 1:]
             probe(" after a removal")
+    # key ids of every length, in pairs that differ in their last character only: each is found where it is, a proper
+    # prefix of a key id is nobody's key id, and the item says the whole id
+    for L in sizes([1, 2, 100, 200] + STD_SIZES + [5000, 70000], lo=1, hi=80000):
+        world.op("jwks %d del" % S0, cmp=False, tag="cfg")
+        base = ("k" * (L - 1))
+        kids = [base + "a", base + "b", "other"]
+        doc = json.dumps({"keys": [kb.jwk(extra={"kid": k_}) for k_ in kids]}).encode()
+        world.load_doc(S0, doc, "strn", tag="cfg")
+        for pos_, k_ in enumerate(kids):
+            metas.append((len(world.ops), {"kind": "kr", "op": "find a key id of %d characters" % len(k_), "want": str(pos_)}))
+            world.op("jwks %d find %s" % (S0, hx(k_.encode())), tag="kr")
+            metas.append((len(world.ops), {"kind": "kr-item", "op": "get %d (key id of %d characters)" % (pos_, len(k_)), "want": "kid=%s err=0" % hx(k_.encode())}))
+            world.op("jwks %d item %d" % (S0, pos_), tag="kr")
+        for probe_ in ([base] if L > 1 else []) + [base + "c", base + "ab", kids[0][:255], kids[0][:256]]:
+            if probe_ in kids or not probe_:
+                continue
+            metas.append((len(world.ops), {"kind": "kr", "op": "find a %d-character text that is no key's id among ids of %d characters" % (len(probe_), L), "want": "-1"}))
+            world.op("jwks %d find %s" % (S0, hx(probe_.encode())), tag="kr")
     world.op("jwks %d del" % S0, cmp=False, tag="cfg")
     return metas
 
